@@ -17,6 +17,9 @@ REGIMES = {
 # 1 = the other builtin type (float in K1; int for whole seconds elsewhere), 2 = numpy.float64. Set per case by the
 # worker as a function of the case, so a replay uses the same type.
 NUMMODE = 0
+# precision settings made (and abandoned) before the regime's own one: 0 none, 1 set_precision(2), 2 set_precision(0)
+# then set_precision(6). The precision is process-wide state; an earlier setting must leave no trace.
+PRECHIST = 0
 
 
 def nummode_of(case):
@@ -24,6 +27,13 @@ def nummode_of(case):
     import json
     h = hashlib.sha256(json.dumps(case, sort_keys=True, default=str).encode()).digest()
     return (0, 0, 1, 2)[h[0] % 4]
+
+
+def prechist_of(case):
+    import hashlib
+    import json
+    h = hashlib.sha256(json.dumps(case, sort_keys=True, default=str).encode()).digest()
+    return h[1] % 3
 
 
 class OffGrid(Exception):
@@ -40,6 +50,11 @@ class TB:
 
     def enter(self):
         from pyannote.core import Segment
+        if PRECHIST == 1:
+            Segment.set_precision(2)
+        elif PRECHIST == 2:
+            Segment.set_precision(0)
+            Segment.set_precision(6)
         Segment.set_precision(self.prec)
 
     @staticmethod
